@@ -567,6 +567,19 @@ theorem elected_session_continues (st : NS) (hnd : (st.sessions.map (·.id)).Nod
     ∃ r, st.postAuthReply id = some r ∧ r.continues = true :=
   elected_continues st hnd hw id hel
 
+/-- (every reachable `NodeServerState` is well formed) From the empty table, under any sequence of
+`ConnectionOpened` / `UpdateSession` / `ConnectionAuthenticated` / session exits — session actor ids
+never reused while in the table —: session ids are distinct and no session carries the nonce
+`Some(0)` (`NonZeroU64`). These are the hypotheses `hnd` / `hw` of `elected_session_continues`, so
+that theorem holds in every reachable state: an authenticated, elected session is never told to stop. -/
+theorem reachable_states_are_well_formed (thisName : String) (ops : List NSOp)
+    (hf : nsFresh { thisName := thisName, sessions := [] } ops) :
+    ((nsRun thisName ops).sessions.map (·.id)).Nodup ∧ (∀ s ∈ (nsRun thisName ops).sessions, s.conn ≠ some 0) ∧
+    ∀ id, (nsRun thisName ops).isElected id = true →
+      ∃ r, (nsRun thisName ops).postAuthReply id = some r ∧ r.continues = true := by
+  have h := nsRun_wf_aux ops { thisName := thisName, sessions := [] } ⟨by simp, by simp⟩ hf
+  exact ⟨h.1, h.2, fun id hel => elected_continues _ h.1 h.2 id hel⟩
+
 /-- non-vacuity: a state with an authenticated server-side session, a second server-side
 duplicate committing, and an unauthenticated spoofer claiming the same name. -/
 def exampleNS : NS :=
@@ -624,3 +637,4 @@ end C18
 #print axioms C18.elected_set_is_stable
 #print axioms C18.commit_leaves_elected_set
 #print axioms C18.elected_session_continues
+#print axioms C18.reachable_states_are_well_formed
